@@ -160,7 +160,11 @@ class PyEval(MiniEval):
         if isinstance(v, (bool, int, float, str, tuple, list, dict, set, frozenset)) or v is None:
             return bool(v)
         if isinstance(v, Tok):
-            return True
+            # `__truth__`: the outcome of bool(v) for objects whose class defines __bool__/__len__ (False, or "raise:<Class>")
+            t = v.attrs.get("__truth__", True)
+            if isinstance(t, str) and t.startswith("raise:"):
+                raise Raised(f"bool({v.name})", t[6:])
+            return bool(t)
         raise Unsupported(f"truthiness of {v!r}")
 
     def compare(self, op: ast.cmpop, a: Any, b: Any) -> bool:
@@ -220,6 +224,13 @@ class PyEval(MiniEval):
                     return a | b
             except (ZeroDivisionError, OverflowError) as e:
                 raise Raised(str(e), type(e).__name__) from None
+        if isinstance(a, str) and isinstance(b, str) and isinstance(op, ast.Add):
+            return a + b
+        if isinstance(op, ast.Mult) and ((isinstance(a, str) and isinstance(b, int) and not isinstance(b, bool) and b < 10000)
+                                         or (isinstance(b, str) and isinstance(a, int) and not isinstance(a, bool) and a < 10000)):
+            return a * b
+        if isinstance(a, tuple) and isinstance(b, tuple) and isinstance(op, ast.Add):
+            return a + b
         if isinstance(a, list) and isinstance(b, (list, int)) and isinstance(op, (ast.Add, ast.Mult)):
             return a + b if isinstance(op, ast.Add) else a * b
         if isinstance(a, int) and not isinstance(a, bool) and isinstance(b, list) and isinstance(op, ast.Mult) and a < 10000:
@@ -256,6 +267,8 @@ class PyEval(MiniEval):
                     out += str(v.value)
                 elif isinstance(v, ast.FormattedValue):
                     x = self.ev(v.value, env)
+                    if isinstance(x, Tok) and isinstance(x.attrs.get("__str__"), str):
+                        x = x.attrs["__str__"]
                     if not isinstance(x, (str, int)):
                         raise Unsupported(f"f-string part {x!r}")
                     out += str(x)
@@ -732,11 +745,15 @@ class PyEval(MiniEval):
                 except ValueError:
                     raise Raised("list.remove(x): x not in list", "ValueError") from None
             if isinstance(recv, str) and m in ("join", "split", "strip", "lstrip", "rstrip", "capitalize", "title", "replace", "format", "removeprefix", "removesuffix",
-                                               "isdigit", "isidentifier", "find", "count") and not node.keywords \
+                                               "isdigit", "isidentifier", "find", "count", "splitlines", "rjust", "ljust", "center", "isspace",
+                                               "expandtabs", "zfill", "partition", "rpartition", "rsplit", "index", "rfind") and not node.keywords \
                     and all(isinstance(x, (str, int, list, tuple)) for x in A()):
                 if m == "join" and not all(isinstance(x, str) for x in A()[0]):
                     raise Unsupported("str.join of non-strings")
-                return getattr(recv, m)(*A())
+                try:
+                    return getattr(recv, m)(*A())
+                except (ValueError, TypeError, IndexError, KeyError) as ex:
+                    raise Raised(f"str.{m}: {ex}", type(ex).__name__) from None
             if isinstance(recv, (dict, list, tuple, set, frozenset, str, int, float)):
                 # a method of a concrete Python value that is not modelled: never guess (a silently ignored mutation
                 # would make every later conclusion wrong)
